@@ -84,7 +84,10 @@ def symbolic_for(ip, node, it, fr):
     if inv is None:
         if getattr(ip, "frame_only", False):
             return trivial_for(ip, node, it, fr)
-        raise Unsupported(f"loop over a symbolic sequence without an invariant: `{key}` in {owner}")
+        # a loop the contract has no invariant for (the code was restructured, or a helper gained a loop): it is cut with
+        # the invariant `True`; obligations that then fail without a replayable input are reported as undecided
+        ip.path.__dict__.setdefault("no_invariant", []).append(f"`{key}` in {owner}")
+        return trivial_for(ip, node, it, fr)
     r = iter_elements(ip, it)
     seq, elem = r[0], r[1]
     n = z3.Length(seq)
@@ -135,6 +138,8 @@ def _pick(ip, fn, env):
     for nme in names:
         if nme in env:
             out[nme] = env[nme]
+        elif nme.startswith("old_") and nme[4:] in getattr(ip, "entry_env", {}):
+            out[nme] = ip.entry_env[nme[4:]]          # value of a parameter on entry to the function under proof
         else:
             raise Unsupported(f"invariant names unknown local {nme!r}")
     return out
